@@ -257,6 +257,51 @@ def check_floor(ctx, F, cfg):
     ub = [p for p in paths if p.done and p.done[0] == "panic"]
     clamp = [p for p in live if guard_of(p) is False]
     search = [p for p in live if guard_of(p) is True]
+    # ---- second accepted idiom: step back from `index` until core's str::is_char_boundary holds
+    #      if index >= len { len } else { let mut b = index; while !s.is_char_boundary(b) { b -= 1 }; b }
+    # (is_char_boundary(0) is true, so the loop stops before `b -= 1` could underflow; b <= index < len throughout; the first
+    #  boundary met going down from index is the largest one <= index)
+    if any(p.loops for p in paths):
+        ICB = "core::str::<impl str>::is_char_boundary"
+        ok = len(clamp) == 1 and not ub and all(guard_of(p) in (True, False) for p in live)
+        need("stepback|guard", ok, "the guard is no longer `index >= s.len()` (clamp) / `index < s.len()` (search): %s" % [[S.show_atom(a) for a in p.atoms] for p in live][:3])
+        if not ok:
+            return False, covered
+        need("clamp-result", is_len(clamp[0].result), "when index >= len the result is %s, expected s.len()" % S.show(clamp[0].result)[:60])
+        n_exit = n_step = 0
+        for p in search:
+            ent = [ev for ev in p.trace if ev[0] == "enter"]
+            if not need("stepback|one-loop", len(ent) == 1 and len(ent[0][2]) == 1 and p.loops == 1, "more than one loop / loop-carried variable"):
+                return False, covered
+            lid, _nm, init, lv = ent[0][2][0]
+            if init is not None and init[0] == "copy":
+                init = init[1]      # `let mut b = index`: an integer copied by value
+            need("stepback|starts-at-index", init == Ix, "the search starts at %s, not at index" % S.show(init)[:40])
+            tests = [a for a in p.atoms if a[0] == "true" and a[1] == ("call", ICB, (Sx, lv), a[1][3] if len(a[1]) > 3 else None)]
+            others = [a for a in p.atoms if a not in tests and not (a[0] == "true" and a[1][0] == "bin" and (is_len(a[1][2]) or is_len(a[1][3])))]
+            if not need("stepback|test", len(tests) == 1 and not others, "an iteration decides on more than `s.is_char_boundary(b)`: %s" % [S.show_atom(a) for a in p.atoms][:3]):
+                return False, covered
+            ev = [e for e in p.trace if e[0] in ("iter", "break")][0]
+            val = dict(ev[2]).get(lid)
+            if ev[0] == "break":
+                n_exit += 1
+                need("stepback|exit", tests[0][2] is True and p.result == lv, "the loop is left when %s with result %s, expected: on a boundary, returning it" % (S.show_atom(tests[0]), S.show(p.result)[:40]))
+            else:
+                n_step += 1
+                need("stepback|step", tests[0][2] is False and val == ("bin", "-", lv, ("lit", 1)), "a non-boundary position is followed by %s, expected b - 1" % S.show(val or ("unk", 0, "?"))[:40])
+        need("stepback|shape", n_exit == 1 and n_step == 1, "the loop does not have exactly one exit (on a boundary) and one step (b - 1)")
+        if ok_all:
+            for sp, seen in sym.arith.items():
+                for op, a, b in seen:
+                    if op == "-" and b == ("lit", 1):
+                        covered[sp] = "b - 1 with b > 0: position 0 is a character boundary, where the loop stops"
+            for x in H.walk(fn["body"]):
+                if x.get("k") == "loop":
+                    covered[x.get("sp")] = "the step-back loop ends at a character boundary at or above 0"
+        A = Analysis(fn)
+        for kind, x in obligations(fn):
+            need("obligation|%s" % A.desc(x)[:60], x.get("sp") in covered, "panic-capable construct outside the template: %s" % A.desc(x)[:100], where=H.line(x))
+        return ok_all, covered
     extra_atoms = [a for p in paths for a in p.atoms if not (a[0] == "true" and a[1][0] == "bin" and (is_len(a[1][2]) or is_len(a[1][3])) and Ix in (a[1][2], a[1][3])) and not (a[0] in ("is", "isnot") and a[1][0] == "call" and a[1][1].endswith("::rposition"))]
     if not need("guard", len(clamp) == 1 and len(search) == 1 and len(live) == 2 and not extra_atoms,
                 "the guard is no longer `index >= s.len()` (clamp) / `index < s.len()` (search): %s" % [[S.show_atom(a) for a in p.atoms] for p in live][:3]):
@@ -370,7 +415,8 @@ def check_truncate(ctx, F, cfg, floor_present):
     def fresh(t):
         return t[0] == "call" and not t[2] and t[1] == "heapless::string::String::<N>::new"
 
-    sym = S.Sym(F, fn, is_effect=lambda callee, args, node, st: callee == "<index>" or (bool(args) and fresh(args[0]) and (callee or "").split("::")[-1] not in ("new", "len", "as_str")),
+    SPLIT_AT = "core::str::<impl str>::split_at"
+    sym = S.Sym(F, fn, is_effect=lambda callee, args, node, st: callee == "<index>" or callee == SPLIT_AT or is_string_from(node) or (bool(args) and fresh(args[0]) and (callee or "").split("::")[-1] not in ("new", "len", "as_str")),
                 inline=lambda path, node: path not in FLOORS and sym.default_inline(path, node))
     try:
         paths = sym.run()
@@ -379,26 +425,41 @@ def check_truncate(ctx, F, cfg, floor_present):
     live = [p for p in paths if not (p.done and p.done[0] == "panic")]
     good = len(live) == 1 and not live[0].atoms[:-1] if live else False
     fl_ok = push_ok = False
+
+    def cut_of(arg):
+        """the cut position when arg is the prefix of s up to it: s[..cut] / s[0..cut] / s.split_at(cut).0"""
+        if arg[0] == "index" and arg[1] == Sx:
+            lo, hi = _range_bounds(arg[2])
+            return hi[1] if hi and hi[0] == "excl" and lo == ("lit", 0) else None
+        if arg[0] == "tproj" and arg[2] == 0 and arg[1][0] == "call" and arg[1][1] == SPLIT_AT and len(arg[1][2]) == 2 and arg[1][2][0] == Sx:
+            return arg[1][2][1]
+        return None
+
+    def is_floor_L(cut):
+        return cut is not None and cut[0] == "call" and cut[1] in FLOORS and cut[2][0] == Sx and cut[2][1][0] in ("path", "const") and cut[2][1][1] == TRUNCATE + "::L"
+
     if live:
         p = live[0]
         pushes = [e for e in p.effects if e.kind == "call" and e.callee == "heapless::string::String::<N>::push_str"]
-        idx = [e for e in p.effects if e.kind == "index"]
-        others = [e for e in p.effects if e not in pushes and e not in idx]
-        if len(pushes) == 1 and not others:
-            arg = pushes[0].args[1]
-            lo, hi = _range_bounds(arg[2]) if arg[0] == "index" and arg[1] == Sx else (None, None)
-            cut = hi[1] if hi and hi[0] == "excl" and lo == ("lit", 0) else None
-            fl_ok = cut is not None and cut[0] == "call" and cut[1] in FLOORS and cut[2][0] == Sx and cut[2][1][0] in ("path", "const") and cut[2][1][1] == TRUNCATE + "::L"
-            bt = None
-            n = pushes[0].node
-            recv_ty = (n.get("recv_ty") or "") if isinstance(n, dict) else ""
-            push_ok = fl_ok and p.result == pushes[0].args[0] and fresh(p.result) and sym.lookup(p, pushes[0].term) == S.OK and "String<L>" in (fn.get("output") or "")
+        idx = [e for e in p.effects if e.kind == "index" or e.callee == SPLIT_AT]
+        froms = [e for e in p.effects if is_string_from(e.node)]
+        others = [e for e in p.effects if e not in pushes and e not in idx and e not in froms]
+        ret_L = "String<L>" in (fn.get("output") or "")
+        if len(pushes) == 1 and not others and not froms:
+            fl_ok = is_floor_L(cut_of(pushes[0].args[1]))
+            push_ok = fl_ok and p.result == pushes[0].args[0] and fresh(p.result) and sym.lookup(p, pushes[0].term) == S.OK and ret_L
+        elif len(froms) == 1 and not others and not pushes and len(froms[0].args) == 1:
+            # String::<L>::from(prefix): heapless' conversion panics only beyond L bytes, and floor(s, L) <= L
+            fl_ok = is_floor_L(cut_of(froms[0].args[0]))
+            push_ok = fl_ok and p.result == froms[0].term and ret_L and not [q for q in paths if q.done and q.done[0] == "panic"]
             if push_ok:
-                for e in idx:
-                    covered[e.node.get("sp")] = "s[..floor(s, L)]: the cut is on a character boundary and <= len"
-                for q in paths:
-                    if q.done and q.done[0] == "panic":
-                        covered[q.done[1]] = "the prefix has at most L bytes: it fits the fresh String<L>"
+                covered[froms[0].node.get("sp")] = "String::<L>::from(prefix): the prefix has at most L bytes"
+        if push_ok:
+            for e in idx:
+                covered[e.node.get("sp")] = "s[..floor(s, L)] / s.split_at(floor(s, L)): the cut is on a character boundary and <= len"
+            for q in paths:
+                if q.done and q.done[0] == "panic":
+                    covered[q.done[1]] = "the prefix has at most L bytes: it fits the fresh String<L>"
     ctx.oblige("C13|truncate|floor-call", fl_ok, "truncate::<L> does not cut at floor_char_boundary(s, L) with its own capacity L", cfg=cfg, where=fn["sp"])
     ctx.oblige("C13|truncate|push-prefix", push_ok, "truncate does not push exactly s[..floor] into a fresh String<L> and return it", cfg=cfg, where=fn["sp"])
     A = Analysis(fn)
@@ -407,13 +468,37 @@ def check_truncate(ctx, F, cfg, floor_present):
     return push_ok, covered
 
 
+def is_string_from(node):
+    """`String::<N>::from(&str)` of heapless 0.7 (also through .into()): panics when the text has more than N bytes"""
+    if not isinstance(node, dict) or node.get("k") not in ("call", "mcall"):
+        return False
+    ta = node.get("targs") or [""]
+    if node.get("callee") == "core::convert::From::from" and ta[0].startswith("heapless::string::String<"):
+        return True
+    return node.get("callee") == "core::convert::Into::into" and len(ta) > 1 and ta[1].startswith("heapless::string::String<") and ta[0] in ("&str", "&'de str", "&'a str")
+
+
+def fits_guard(p, e, text, cap_terms):
+    """the atoms before effect e on path p contain `len(text) <= L` (in either canonical spelling)"""
+    is_len = lambda x: x[0] == "call" and x[1] == "core::str::<impl str>::len" and x[2] == (text,)
+    for a in p.atoms[:e.natoms]:
+        if a[0] != "true" or a[1][0] != "bin":
+            continue
+        op, l, r, pol = a[1][1], a[1][2], a[1][3], a[2]
+        if op == "<=" and is_len(l) and r in cap_terms and pol:
+            return True
+        if op == "<" and l in cap_terms and is_len(r) and not pol:
+            return True
+    return False
+
+
 def wrapper_paths(F, fn, opaque=()):
     """path summaries of a text-decoding wrapper: effects = the inner Deserialize call and every mutation of a fresh String"""
     def fresh(t):
         return t[0] == "call" and not t[2] and t[1].split("::")[-1] == "new"
 
     def is_effect(callee, args, node, st):
-        if node.get("callee") == DESER:
+        if node.get("callee") == DESER or is_string_from(node):
             return True
         if callee in ("<assign>",):
             return bool(args) and fresh(args[0])
@@ -468,7 +553,8 @@ def check_skip(ctx, F, cfg, fn):
         if r is None or r[0] != "ctor" or r[1] != S.OK:
             continue
         v = r[2][0]
-        muts = [e for e in p.effects if e.tcallee != DESER]
+        froms = [e for e in p.effects if is_string_from(e.node)]
+        muts = [e for e in p.effects if e.tcallee != DESER and e not in froms]
         pushes = [e for e in muts if e.callee == PUSH and len(e.args) == 2 and e.args[1] == text]
         # length pre-checks on this path: atoms comparing len(text) with L
         pre = []
@@ -476,15 +562,19 @@ def check_skip(ctx, F, cfg, fn):
             if a[0] == "true" and a[1][0] == "bin" and any(x[0] == "call" and x[1] == "core::str::<impl str>::len" and x[2] == (text,) for x in (a[1][2], a[1][3])):
                 pre.append(a)
         if v[0] == "ctor" and v[1] == S.SOME:
-            good = len(muts) == 1 and len(pushes) == 1 and v[2] == (pushes[0].args[0],) and sym.lookup(p, pushes[0].term) == S.OK
+            good = len(muts) == 1 and len(pushes) == 1 and not froms and v[2] == (pushes[0].args[0],) and sym.lookup(p, pushes[0].term) == S.OK
+            # or: the panicking String::<L>::from(text), reached only when len(text) <= L
+            if not good and not muts and len(froms) == 1 and froms[0].args == (text,) and v[2] == (froms[0].term,) and fits_guard(p, froms[0], text, cap_terms) \
+                    and "String<L>" in ((froms[0].node.get("targs") or [""])[0] + (froms[0].node.get("ty") or "")):
+                good = True
             if good:
                 kept += 1
             else:
                 others.append(S.show(r)[:80])
         elif v == ("ctor", S.NONE, ()):
-            by_push = len(muts) == 1 and len(pushes) == 1 and sym.lookup(p, pushes[0].term) == S.ERR
+            by_push = len(muts) == 1 and len(pushes) == 1 and not froms and sym.lookup(p, pushes[0].term) == S.ERR
             by_pre = False
-            if not muts and pre and p.atoms and p.atoms[-1] is pre[-1]:
+            if not muts and not froms and pre and p.atoms and p.atoms[-1] is pre[-1]:
                 a = pre[-1]
                 op, l, rr, pol = a[1][1], a[1][2], a[1][3], a[2]
                 # canonical comparisons are < and <= : `len > L` is (L < len) true, or (len <= L) false
@@ -507,6 +597,12 @@ def check_skip(ctx, F, cfg, fn):
     bodies = [fn] + [F.fn(q) for q in sym.inlined if F.fn(q) is not None]
     convs = [x for g in bodies for x in H.walk(g["body"]) if H.conversion_impl(x) == CONV or (x.get("callee") == "core::convert::From::from" and (x.get("targs") or [""])[0].startswith("heapless::string::String<"))]
     blanket = [x for x in convs if x.get("resolved") == "<T as core::convert::TryFrom<U>>::try_from" or "core::convert::Infallible" in (x.get("ty") or "") or x.get("callee") == "core::convert::From::from"]
+    # .. unless every evaluation of it is preceded by the test `len(text) <= L` having come out true
+    def guarded(x):
+        evs = [(p, e) for p in paths for e in p.effects if e.node is x]
+        return bool(evs) and all(e.args == (text,) and fits_guard(p, e, text, cap_terms) for p, e in evs)
+    covered = {x.get("sp"): "String::<L>::from(text) evaluated only after `len(text) <= L` came out true" for x in blanket if guarded(x)}
+    blanket = [x for x in blanket if not guarded(x)]
     ctx.oblige("C13|skip|fallible-conversion", not blanket,
                "the text is converted with heapless' panicking String::from(&str) (directly or through core's infallible blanket TryFrom): "
                "an icon longer than the capacity panics instead of being dropped", cfg=cfg, where=H.line(blanket[0]) if blanket else fn["sp"])
@@ -514,6 +610,7 @@ def check_skip(ctx, F, cfg, fn):
     ctx.oblige("C13|skip|drops-when-too-long", dropped >= 1, "an over-long icon is not reported absent with Ok(None)", cfg=cfg, where=fn["sp"])
     ctx.oblige("C13|skip|no-other-result", not others, "skip_if_too_long has other results: %s" % others[:3], cfg=cfg, where=fn["sp"])
     ctx.sample({"cfg": cfg, "skip_if_too_long": S.summarize(paths)}, limit=3)
+    return covered if (kept >= 1 and dropped >= 1 and not others and not blanket) else {}
 
 
 def check_trunc_wrapper(ctx, F, cfg, fn):
